@@ -80,6 +80,7 @@ type Exec struct {
 	freshRefs map[int]bool
 	immutable map[string]bool
 	cbPrivate []string
+	cbPrivateMap []string
 	snaps     map[string]Val
 	refAxQ    map[string]bool
 	ptrTab    map[int]*PtrInfo // pointer value (term id) -> what it points to
